@@ -115,23 +115,28 @@ theorem byte_write_other (m : Mem) (ba ba' : Nat) (v : BitVec 8) (h : ba' ≠ ba
       simp only [h0, h1, if_true, if_false]; exact app_lo _ _
   · simp only [hw, if_false]
 
-/-- **Bounds.**  A word access is inside the array exactly when its `u32` byte address is at most
-`0x7FFFE`; for word addresses without the top bit that is `word < 0x40000`. -/
+/-- **Bounds.**  `SharedMemory` asserts `word_address < 0x40000`: a word access is performed exactly for the
+0x40000 words of the array (the second conjunct is kept in the shape later proofs use). -/
 theorem mem_bounds (wa : U32) :
-    (Mem.inRange wa = true ↔ (wa * 2).toNat ≤ 0x7FFFE) ∧
+    (Mem.inRange wa = true ↔ wa.toNat < 0x40000) ∧
     (wa.toNat < 0x80000000 → (Mem.inRange wa = true ↔ wa.toNat < 0x40000)) := by
-  unfold Mem.inRange Mem.byteAddr
+  unfold Mem.inRange
   constructor
-  · simp; omega
-  · intro h
-    have : (wa * 2).toNat = wa.toNat * 2 := by rw [BitVec.toNat_mul]; simp; omega
-    rw [this]; simp; omega
+  · simp
+  · intro _; simp
+
+/-- The pinned upstream code had no bound: what was inside the array was decided by the `u32` byte address,
+which drops the top bit of the word address. -/
+theorem mem_bounds_upstream (wa : U32) :
+    (Mem.inRangeUpstream wa = true ↔ (wa * 2).toNat ≤ 0x7FFFE) := by
+  unfold Mem.inRangeUpstream Mem.byteAddr
+  simp; omega
 
 private theorem cell_lt (wa : U32) (h : wa.toNat < 0x40000) : wordCell wa = some wa.toNat := by
   unfold wordCell Mem.inRange Mem.byteAddr
   have : (wa * 2).toNat = wa.toNat * 2 := by rw [BitVec.toNat_mul]; simp; omega
   rw [this]
-  have h2 : decide (wa.toNat * 2 + 1 < 0x80000) = true := by simp; omega
+  have h2 : decide (wa.toNat < 0x40000) = true := by simp; omega
   simp only [h2, if_true]
   congr 1; omega
 
@@ -156,7 +161,7 @@ theorem programWrite_cell (b : Bus) (p : U32) (v : U16) (w : Nat) (h : wordCell 
   · cases h
 
 theorem program_oob (b : Bus) (p : U32) (v : U16) (h : wordCell p = none) :
-    b.programRead p = .error .oob ∧ b.programWrite p v = .error .oob := by
+    b.programRead p = .error .assert ∧ b.programWrite p v = .error .assert := by
   unfold wordCell at h
   split at h
   · cases h
@@ -178,24 +183,32 @@ theorem program_word_index (b : Bus) (p : U32) (h : p.toNat < 0x40000) :
     (b.programRead p).map (·.1) = .ok (b.mem.read p.toNat) := by
   rw [programRead_cell b p p.toNat (cell_lt p h)]; rfl
 
-/-- `ReadWord` as a function of the `u32` byte address alone. -/
-private def readAt (m : Mem) (ba : Nat) : R (U16 × List Access) :=
-  match (if decide (ba + 1 < 0x80000) = true then .ok (m.read (ba / 2), ⟨ba, false, 0⟩) else .error .oob : R (U16 × Access)) with
-  | .ok (v, a) => .ok (v, [a])
-  | .error e => .error e
+private theorem programRead_outside (b : Bus) (a : U32) (h : Mem.inRange a = false) :
+    b.programRead a = .error .assert := by
+  simp only [programRead, Mem.readWord, h, Bool.false_eq_true, if_false]
 
-private theorem programRead_readAt (b : Bus) (p : U32) : b.programRead p = readAt b.mem (Mem.byteAddr p) := rfl
-
-/-- `word_address * 2` is computed in `u32`: the top bit of a 32-bit program address is lost, so
-`p + 0x80000000` addresses the same word as `p` (a valid access of the C++, not a trap). -/
-theorem program_alias_top_bit (b : Bus) (p : U32) : b.programRead (p + 0x80000000) = b.programRead p := by
-  have e : (p + 0x80000000) * 2 = p * 2 := by
-    rw [BitVec.add_mul]
-    have : (0x80000000 : U32) * 2 = 0 := by decide
-    rw [this]; simp
-  have : Mem.byteAddr (p + 0x80000000) = Mem.byteAddr p := by
-    unfold Mem.byteAddr; rw [e]
-  rw [programRead_readAt, programRead_readAt, this]
+/-- **No aliasing.**  A 32-bit program address with any bit above the 18-bit program space is rejected by the
+assertion (the pinned upstream code dropped the top bit in `word_address * 2`, so that `p + 0x80000000`
+silently addressed word `p`: `Mem.inRangeUpstream`). -/
+theorem program_alias_top_bit (b : Bus) (p : U32) (h : p.toNat < 0x40000) :
+    b.programRead (p + 0x80000000) = .error .assert ∧ Mem.inRangeUpstream (p + 0x80000000) = true := by
+  have hn : (p + 0x80000000 : U32).toNat = p.toNat + 0x80000000 := by
+    rw [BitVec.toNat_add]; simp; omega
+  constructor
+  · have hr : Mem.inRange (p + 0x80000000) = false := by
+      unfold Mem.inRange
+      rw [hn]
+      have : ¬ (p.toNat + 0x80000000 < 0x40000) := by omega
+      simp [this]
+    exact programRead_outside b _ hr
+  · unfold Mem.inRangeUpstream Mem.byteAddr
+    have e : (p + 0x80000000) * 2 = p * 2 := by
+      rw [BitVec.add_mul]
+      have : (0x80000000 : U32) * 2 = 0 := by decide
+      rw [this]; simp
+    rw [e]
+    have : (p * 2).toNat = p.toNat * 2 := by rw [BitVec.toNat_mul]; simp; omega
+    rw [this]; simp; omega
 
 /-- **`ConvertDataAddress` and its `ASSERT`s.**  In page mode 0 the bank is `z_page`; otherwise
 `x_page` for `addr <= x_size[0] * 0x400` and `y_page` above; the call asserts exactly when the
@@ -559,8 +572,8 @@ example : Port.cell ({} : Bus) (.data 0x1234 false) = some 0x21234 ∧
 example : Port.cell ({} : Bus) (.data 0x8024 false) = none ∧ Port.cell ({} : Bus) (.data 0x8024 true) = some 0x28024 := by
   refine ⟨by decide, by decide⟩
 
-/-- The first word outside the array, and its top-bit alias inside. -/
-example : Port.cell ({} : Bus) (.prog 0x40000) = none ∧ Port.cell ({} : Bus) (.prog 0x80000005) = some 5 := by
+/-- The first word outside the array, and a top-bit alias: both rejected. -/
+example : Port.cell ({} : Bus) (.prog 0x40000) = none ∧ Port.cell ({} : Bus) (.prog 0x80000005) = none := by
   refine ⟨by decide, by decide⟩
 
 end Bus
